@@ -422,7 +422,7 @@ def replay(path: str, repo: str) -> int:
     d = json.load(open(path))
     print(json.dumps({k: d.get(k) for k in ("property", "obligation", "source", "failing_input")}, indent=1))
     w = d.get("failing_input") or {}
-    if (w.get("replay") or {}).get("kind") == "kl_injected":
+    if (w.get("replay") or {}).get("kind") in ("kl_injected", "kl_baa"):
         from engine.witness import replay_recorded
         return replay_recorded(w["replay"], repo)
     if w.get("cmd"):
